@@ -587,7 +587,11 @@ def main(argv=None):
         "%s %s: %d obligations, %d discharged, %d sat, %d unknown, %d errors; witnesses %d/%d, mutants %d/%d; conformance %d values, %d mismatches; solver %.1fs wall %.1fs"
         % (pid, args.tier, len(obligations), len(discharged), len(sat), len(unknown), len(errors), len(witnesses) - len(bad_wit), len(witnesses), len(mutants) - len(bad_mut), len(mutants), conf["n"], len(conf["bad"]), solver_s, wall)
     )
+    printed = set()
     for k, r in known_hits:
+        if k["key"] in printed:
+            continue
+        printed.add(k["key"])
         print("KNOWN-FINDING: property=%s %s [%s]" % (pid, k["what"], k["key"]))
     code = EXIT_OK
     if conf_err or conf["bad"]:
